@@ -356,3 +356,4 @@ def replay(ctx, payload):
     if case.get("after_failed_encode"):
         impl_encode(case["after_failed_encode"]["proto"], case["after_failed_encode"]["pkt"])
     eval_cases(ctx, [case])
+THEOREMS += ['gen_sdp_packed_data', 'gen_sdp_bytestring', 'gen_scp_packed_data', 'gen_scp_bytestring', 'gen_unpack_sdp', 'gen_sdp_from_bytestring', 'gen_scp_from_bytestring']   # translator tie: generated function bodies = model (Props/C15Gen.lean)
